@@ -20,7 +20,7 @@ def kbint_stopped(d):
     return False
 
 
-def expected_flags(case, d):
+def expected_flags(case, d, prev=None):
     """done flag each doer must show, recomputed from its script and how its LAST incarnation ended"""
     spec, par, pools, kids = S.spec_index(case)
     nrec, how = {}, {}
@@ -36,7 +36,7 @@ def expected_flags(case, d):
     want = {}
     for i, s in spec.items():
         if i not in how:
-            want[i] = (False, "never entered")
+            want[i] = ((prev or {}).get(i, False), "never entered")
         elif how[i] != "clean":
             want[i] = (False, "not finished by itself")
         elif s[0] == "group":
@@ -52,8 +52,10 @@ def expected_flags(case, d):
     return want
 
 
-def clauses(case, d):
+def clauses(case, d, prev=None):
     bad = []
+    if "done_raw" in d and not isinstance(d["done_raw"], bool):
+        bad.append("doist-done-is-not-a-bool-after-the-run")
     _, tock, start, limit, pool, specs = case
     tock = float(tock)
     start = float(start)
@@ -109,7 +111,7 @@ def clauses(case, d):
     if d["raised"].startswith("other:") or d["raised"] == "kbint":
         bad.append("unexpected-exception-from-do:" + d["raised"].split(":")[-1])
     # done flags
-    want = expected_flags(case, d)
+    want = expected_flags(case, d, prev)
     spec = S.spec_index(case)[0]
     for i, b in d["flags"]:
         w, why = want[i]
@@ -150,13 +152,110 @@ class C05(S.SchedCheck):
                         cs.append(("run", t, st, L, [], p))
         return cs, "2 fixed programs x every tock in {1/32,0.1,0.25,0.5,1} x start in {0,1,2.5,0.3} x 12 limits (None, 0, fractions, multiples, negative)"
 
+    # ---- several runs on one Doist object ("runs" cases): every hook dispatches on the case kind
+    def generate(self, rng, n, tier):
+        k = max(1, n // 4)
+        yield from super().generate(rng, n - k, tier)
+        for _ in range(k):
+            yield S.gen_runs(rng)
+
+    def corpus(self):
+        y = lambda t=0.0: ([], ("yield", t))
+        A = [("leaf", 101, "plain", "ok", [y(), y()])]
+        B = [("leaf", 201, "genrecur", "ok", [y()] * 8), ("leaf", 202, "doify", "ok", [y(), ([], ("ret", None))])]
+        K = [("leaf", 301, "bound", "ok", [y(), y(), ([], "kbint")]), ("leaf", 302, "doize", "ok", [y()] * 9)]
+        seqs = []
+        for m1 in ("do", "ado"):
+            for m2 in ("do", "ado"):
+                # completes (done True); then cut by its limit; then the same doers again to completion; then interrupted
+                seqs.append(("runs", 1.0, 0.0, None, [(m1, None, None, [], A), (m2, None, 3.0, [], B), (m1, None, 20.0, [], B), (m2, 0.0, None, [], K)]))
+        seqs.append(("runs", 0.25, 1.0, 0.5, [("ado", None, None, [], B), ("ado", 2.5, None, [], A), ("do", None, 0.0, [], B)]))
+        return super().corpus() + seqs
+
+    def request(self, case):
+        return S.request_runs(case) if case[0] == "runs" else super().request(case)
+
+    def run_impl(self, case):
+        return S.ObsRuns(S.run_sequence(case)) if case[0] == "runs" else super().run_impl(case)
+
+    def call_cases(self, case, ds):
+        """each call as the single run it must be equivalent to: start = given or the tyme the previous run ended at, limit sticky"""
+        _, tock, start0, limit0, calls = case
+        out, now, lim = [], float(start0), limit0
+        for (mode, st, lm, pool, specs), d in zip(calls, ds):
+            lim = lm if lm is not None else lim
+            out.append(("run", tock, float(st) if st is not None else now, lim, pool, specs))
+            now = d["tyme"]
+        return out
+
     def nontrivial(self, case, obs):
+        if case[0] == "runs":
+            return sum(len(d["trace"]) for d in obs.ds) >= 12
         return len(obs.d["trace"]) >= 12 and (case[3] is not None or any(b for _, b in obs.d["flags"]))
 
     def oracle(self, case, obs):
-        return clauses(case, obs.d)
+        if case[0] != "runs":
+            return clauses(case, obs.d)
+        bad, prev = [], {}
+        if len(obs.ds) != len(case[4]):
+            bad.append("run-sequence-cut-short")
+        for k, (c, d) in enumerate(zip(self.call_cases(case, obs.ds), obs.ds)):
+            bad += [f"{x}" for x in clauses(c, d, prev)]
+            prev.update(dict(d["flags"]))
+        return sorted(set(bad))
+
+    def features(self, case, obs):
+        if case[0] != "runs":
+            return super().features(case, obs)
+        f = ["runs:%d" % len(case[4])]
+        seen = []
+        for (mode, st, lm, pool, specs), d in zip(case[4], obs.ds):
+            f += ["call:" + mode, "call:done=%s" % d["done"], "call:raised=" + d["raised"], "call:tyme=" + ("kept" if st is None else "given"),
+                  "call:limit=" + ("kept" if lm is None else "given")]
+            if (pool, specs) in seen:
+                f.append("call:doers-reused")
+            seen.append((pool, specs))
+        for a, b in zip(obs.ds, obs.ds[1:]):
+            if a["done"] and not b["done"]:
+                f.append("call:done-true-then-false")
+        return f
+
+    def shrink(self, case):
+        if case[0] != "runs":
+            return super().shrink(case)
+        _, tock, start0, limit0, calls = case
+        out = []
+        for n in range(len(calls)):
+            if len(calls) > 1:
+                out.append(("runs", tock, start0, limit0, calls[:n] + calls[n + 1:]))
+        for n, (mode, st, lm, pool, specs) in enumerate(calls):
+            if mode == "ado":
+                out.append(("runs", tock, start0, limit0, calls[:n] + [("do", st, lm, pool, specs)] + calls[n + 1:]))
+            if st is not None:
+                out.append(("runs", tock, start0, limit0, calls[:n] + [(mode, None, lm, pool, specs)] + calls[n + 1:]))
+            # shrinking a program renames nothing, so reuse by id stays consistent only if every copy is replaced
+            for s2 in S._shrink_specs(list(specs)):
+                new = [(m, a, b, p, (s2 if (p, sp) == (pool, specs) else sp)) for m, a, b, p, sp in calls]
+                out.append(("runs", tock, start0, limit0, new))
+        return [c for c in out if self.runs_valid(c)]
+
+    def runs_valid(self, case):
+        _, tock, start0, limit0, calls = case
+        lim = limit0
+        for mode, st, lm, pool, specs in calls:
+            lim = lm if lm is not None else lim
+            if not S.case_valid(("run", tock, 0.0, lim, pool, specs)):
+                return False
+        return bool(calls)
+
+    def mutate(self, rng, case):
+        if case[0] != "runs":
+            return super().mutate(rng, case)
+        return list(self.shrink(case))[:40] + [S.gen_runs(rng) for _ in range(20)]
 
     def known(self, case, obs, clauses):
+        if case[0] == "runs":
+            return "C05-K1" if clauses == ["always-group-done-true-although-force-closed"] else None
         # C05-K1: a DoDoer(always=True) whose deeds are all complete keeps done=True from its own recur();
         # when it is then force-closed the flag stays True although it never returned.
         if clauses == ["always-group-done-true-although-force-closed"]:
